@@ -103,7 +103,7 @@ pub fn obs_of(o: &Oracle, cp: u32) -> Value {
         "ld": ctx_obs("zwnj", &[cp, 0x200c, 0x0628], 1),
         "rd": ctx_obs("zwnj", &[0x0628, 0x200c, cp], 1),
         "wm": [one("UCM", "width_mapping_rule", &[cp]), one("UCP", "width_mapping_rule", &[a, cp]), one("UCM", "width_mapping_rule", &[cp, a]),
-               one("UCP", "width_mapping_rule", &[0xff21, cp])],
+               one("UCP", "width_mapping_rule", &[0xff21, cp]), one("UCM", "width_mapping_rule", &[cp, 0xff21])],
         "lc": [one("UCM", "case_mapping_rule", &[cp]), one("NICK", "case_mapping_rule", &[big_a, cp]), one("UCM", "case_mapping_rule", &[cp, big_a])],
         "osp": one("OPQ", "additional_mapping_rule", &[a, cp, a]),
         "nsp": one("NICK", "additional_mapping_rule", &[a, cp, a]),
@@ -112,6 +112,7 @@ pub fn obs_of(o: &Oracle, cp: u32) -> Value {
         "nsp2": one("NICK", "additional_mapping_rule", &[a, 0xa0, cp, a]),
         // ... and as the LAST character of a label whose spaces need action
         "osp3": one("OPQ", "additional_mapping_rule", &[0xa0, a, cp]),
+        "osp4": one("OPQ", "additional_mapping_rule", &[cp, 0xa0]),
         "nsp3": one("NICK", "additional_mapping_rule", &[0x20, a, cp]),
         "bidi": [
             dir_ok(&[0x05d0, cp]),
